@@ -434,6 +434,85 @@ pub fn model_layer(l: usize, nreal: usize) -> usize {
     }
 }
 
+fn resize<T: Clone>(v: &mut Vec<T>, surplus: bool, fill: T) -> Option<Value> {
+    let before = v.len();
+    if surplus {
+        let x = v.last().cloned().unwrap_or(fill);
+        v.push(x);
+    } else {
+        v.pop()?;
+    }
+    Some(json!({"len_before": before, "len_after": v.len()}))
+}
+
+/// shape classes (spec/RecVerifier.tla `ShapeClasses`): ONE list of an otherwise valid proof gets one surplus element
+/// appended (`surplus`) or its last element removed.  `list` is the model's component name.
+pub fn shape_tamper(p: &mut PW, list: &str, surplus: bool, r: &mut ChaCha8Rng) -> Option<Value> {
+    let (base, arg) = split_class(list);
+    let zero_h = plonky2::hash::hash_types::HashOut::<F>::ZERO;
+    let ze = FE::ZERO;
+    let nreal = p.proof.opening_proof.commit_phase_merkle_caps.len();
+    let layer = arg.map(|l| model_layer(l, nreal));
+    match base {
+        "pis" => return resize(&mut p.public_inputs, surplus, F::ZERO),
+        "wires_cap" => return resize(&mut p.proof.wires_cap.0, surplus, zero_h),
+        "zs_cap" => return resize(&mut p.proof.plonk_zs_partial_products_cap.0, surplus, zero_h),
+        "quot_cap" => return resize(&mut p.proof.quotient_polys_cap.0, surplus, zero_h),
+        "op_constants" => return resize(&mut p.proof.openings.constants, surplus, ze),
+        "op_sigmas" => return resize(&mut p.proof.openings.plonk_sigmas, surplus, ze),
+        "op_wires" => return resize(&mut p.proof.openings.wires, surplus, ze),
+        "op_zs" => return resize(&mut p.proof.openings.plonk_zs, surplus, ze),
+        "op_zs_next" => return resize(&mut p.proof.openings.plonk_zs_next, surplus, ze),
+        "op_pp" => return resize(&mut p.proof.openings.partial_products, surplus, ze),
+        "op_quot" => return resize(&mut p.proof.openings.quotient_polys, surplus, ze),
+        "op_lzs" => return resize(&mut p.proof.openings.lookup_zs, surplus, ze),
+        "op_lzs_next" => return resize(&mut p.proof.openings.lookup_zs_next, surplus, ze),
+        _ => {}
+    }
+    let fp = &mut p.proof.opening_proof;
+    match base {
+        "final_poly" => resize(&mut fp.final_poly.coeffs, surplus, ze),
+        "commit_caps" => {
+            let fill = plonky2::hash::merkle_tree::MerkleCap(vec![zero_h; 1]);
+            resize(&mut fp.commit_phase_merkle_caps, surplus, fill)
+        }
+        "commit_cap" => {
+            let l = layer?;
+            resize(&mut fp.commit_phase_merkle_caps.get_mut(l)?.0, surplus, zero_h)
+        }
+        "rounds" => {
+            if !surplus && fp.query_round_proofs.is_empty() {
+                return None;
+            }
+            let before = fp.query_round_proofs.len();
+            if surplus {
+                let x = fp.query_round_proofs.last()?.clone();
+                fp.query_round_proofs.push(x);
+            } else {
+                fp.query_round_proofs.pop();
+            }
+            Some(json!({"len_before": before, "len_after": fp.query_round_proofs.len()}))
+        }
+        "init_leaf" | "init_path" | "step_eval" | "step_path" => {
+            let nr = fp.query_round_proofs.len();
+            if nr == 0 {
+                return None;
+            }
+            let q = r.gen_range(0..nr);
+            let round = &mut fp.query_round_proofs[q];
+            let mut d = match base {
+                "init_leaf" => resize(&mut round.initial_trees_proof.evals_proofs.get_mut(arg?)?.0, surplus, F::ZERO),
+                "init_path" => resize(&mut round.initial_trees_proof.evals_proofs.get_mut(arg?)?.1.siblings, surplus, zero_h),
+                "step_eval" => resize(&mut round.steps.get_mut(layer?)?.evals, surplus, ze),
+                _ => resize(&mut round.steps.get_mut(layer?)?.merkle_proof.siblings, surplus, zero_h),
+            }?;
+            d["round"] = json!(q);
+            Some(d)
+        }
+        _ => None,
+    }
+}
+
 /// verifier-data classes: returns the verifier data to present (`own` = the inner circuit's,
 /// `other` = another circuit's with the same cap height)
 pub fn tamper_vd(own: &VD, other: &VD, class: &str, r: &mut ChaCha8Rng) -> Option<(VD, Value)> {
